@@ -296,8 +296,8 @@ func Extract(src string) Emitted {
 // file uses it in a type position, as a value of type interface{} elsewhere;
 // an undefined identifier of the file's own package is declared the same way
 // if allow accepts it (a current-package symbol the configuration names, or a
-// skeleton hole). Then the file is checked in full; only complaints about
-// unused imports (pruned later by goimports) are dropped.
+// skeleton hole). Then the file is checked in full (unused imports included:
+// the text is what the code formatter returns, after its pruning step).
 func TypeErrors(src string, imp types.Importer, allow func(name string) bool) []string {
 	fset := token.NewFileSet()
 	f, err := parser.ParseFile(fset, "generated.go", src, parser.ParseComments)
@@ -390,9 +390,6 @@ func TypeErrors(src string, imp types.Importer, allow func(name string) bool) []
 		if te, ok := e.(types.Error); ok {
 			msg = te.Msg
 		}
-		if strings.Contains(msg, "imported") && strings.Contains(msg, "not used") {
-			return
-		}
 		out = append(out, msg)
 	}}
 	_, _ = conf.Check(f.Name.Name, fset, files, nil)
@@ -461,3 +458,58 @@ func typePositions(f *ast.File) map[ast.Expr]bool {
 type importerFunc func(path string) (*types.Package, error)
 
 func (f importerFunc) Import(path string) (*types.Package, error) { return f(path) }
+
+// PruneImports removes the import specs whose local name the file never uses,
+// which is the part of golang.org/x/tools/imports.Process the generator relies
+// on (every generated import has an explicit, unique local name). Lines are
+// deleted in place; nothing else is reformatted. Text that does not parse is
+// returned unchanged.
+func PruneImports(src string) string {
+	fset := token.NewFileSet()
+	f, err := parser.ParseFile(fset, "generated.go", src, parser.ParseComments)
+	if err != nil {
+		return src
+	}
+	used := map[string]bool{}
+	ast.Inspect(f, func(n ast.Node) bool {
+		if se, ok := n.(*ast.SelectorExpr); ok {
+			if id, ok := se.X.(*ast.Ident); ok && id.Obj == nil {
+				used[id.Name] = true
+			}
+		}
+		return true
+	})
+	type span struct{ from, to int }
+	var cut []span
+	for _, im := range f.Imports {
+		if im.Name == nil || im.Name.Name == "_" || im.Name.Name == "." || used[im.Name.Name] {
+			continue
+		}
+		from, to := fset.Position(im.Pos()).Offset, fset.Position(im.End()).Offset
+		// the whole line
+		for from > 0 && src[from-1] != '\n' {
+			from--
+		}
+		for to < len(src) && src[to] != '\n' {
+			to++
+		}
+		if to < len(src) {
+			to++
+		}
+		cut = append(cut, span{from, to})
+	}
+	if len(cut) == 0 {
+		return src
+	}
+	var b strings.Builder
+	last := 0
+	for _, c := range cut {
+		if c.from < last {
+			continue
+		}
+		b.WriteString(src[last:c.from])
+		last = c.to
+	}
+	b.WriteString(src[last:])
+	return b.String()
+}
